@@ -8,8 +8,12 @@
 //	  x every length 0..L (L=1100 quick, 4200 thorough) and {2000,4096}
 //	  x {disjoint buffers, in==out} x key/nonce value classes x data classes
 //	one-hot sweep: every single bit of key and of the 16-byte counter block, both paths
-//	salsa20.XORKeyStream: nonce 8 and 24 bytes x every length x aliasing x value classes
-//	HSalsa20, Core208: value classes + every one-hot input, with and without out aliasing an input
+//	long inputs: 2^k+{-1,0,1,63,64,65}, k=16..22 (24 thorough), both paths, 13 starting counters
+//	  (carry / wrap / byte-carry placed 2^j blocks deep inside the call)
+//	salsa20.XORKeyStream: nonce 8 and 24 bytes x every length x {disjoint, longer out, in==out}
+//	  x value classes; one-hot sweep over key and nonce bits; the long lengths again
+//	HSalsa20, Core208: value classes + every one-hot input, with and without out aliasing an input,
+//	  destination pre-loaded; every argument (key, nonce, counter, input, Sigma) unchanged after the call
 package main
 
 import (
@@ -41,7 +45,9 @@ const guard = 24
 func run(c *vf.Ctx) {
 	c.Rule("full grid path{salsa.XORKeyStream(asm on amd64), genericXORKeyStream} x start-counter{0,1,2^(8k)-3..2^(8k) k=1..7, 2^32-9..2^32+1, 2^64-9..2^64-1 (wrap), seeded} " +
 		"x every length 0..L plus 2000,4096 x {disjoint,in==out} x key/nonce/data value classes; one-hot sweep over all 384 key+counter bits; " +
-		"salsa20.XORKeyStream nonce{8,24} x every length; HSalsa20/Core208 on value classes and all one-hot inputs. " +
+		"long inputs 2^k+{-1,0,1,63,64,65} k=16..22 (24 thorough) x both paths x {disjoint,in==out} x 13 starts incl. carries/wrap 2^j blocks deep inside the call; " +
+		"salsa20.XORKeyStream nonce{8,24} x every length x {len(out)==len(in), len(out)>len(in), in==out}, one-hot sweep over all key+nonce bits, the same long lengths for Salsa20 and XSalsa20; " +
+		"HSalsa20/Core208 on value classes and all one-hot inputs into a pre-loaded destination; after every call key, nonce, counter, input and salsa.Sigma must be unchanged. " +
 		"non-trivial = distinct (path,start,length) whose processed blocks carry out of the low 32-bit counter word or wrap at 2^64; " +
 		"oracle = literal model of the Salsa20 specification (ref/salsaref, KAT-validated)")
 	c.Assume("values outside the alphabet (keys, nonces, data) are not enumerated; control flow of the implementations depends only on length and counter position")
